@@ -117,6 +117,22 @@ Proof.
   destruct (df_name d) as [|c n0] eqn:E; [reflexivity|]. apply assoc_map_set_other. congruence.
 Qed.
 
+(* Route.NamedTo: the (trimmed, non-empty) name points to the route; every other name keeps its route - in particular
+   the names the route had before are NOT removed *)
+Theorem named_to_get rt n rid : trim_space n <> [] -> assoc (trim_space n) (named (named_to rt n rid)) = Some rid.
+Proof.
+  intros H. unfold named_to, names_set. cbn [named set_tables].
+  destruct (trim_space n) as [|c t] eqn:E; [congruence|]. apply assoc_map_set_same.
+Qed.
+Theorem named_to_other rt n rid m : m <> trim_space n -> assoc m (named (named_to rt n rid)) = assoc m (named rt).
+Proof.
+  intros H. unfold named_to, names_set. cbn [named set_tables].
+  destruct (trim_space n) as [|c t] eqn:E; [reflexivity|]. apply assoc_map_set_other. congruence.
+Qed.
+Theorem named_to_tables rt n rid : routes (named_to rt n rid) = routes rt /\ stable (named_to rt n rid) = stable rt /\
+  regular (named_to rt n rid) = regular rt /\ irregular (named_to rt n rid) = irregular rt.
+Proof. repeat split. Qed.
+
 (* ---------- 3. uniqueness of the decomposition for segment-shaped patterns ---------- *)
 Definition slash_free (re : rx) : Prop := forall w, den re w -> ~ In slash w.
 
